@@ -416,7 +416,8 @@ func TestConcurrentGoroutines(t *testing.T) {
 // raceTolerated lists the racing call sites of the listed dependency finding: the accessor is the innermost frame
 // that is not part of the standard library (pass-through writers of the dependency are skipped).
 var raceTolerated = []*regexp.Regexp{
-	regexp.MustCompile(`^github\.com/moorara/algo/grammar\.init\.`),
+	// package-level hashers of the dependency (var hashX = hash.HashFuncFor...(...) in grammar, parser/lr, automata, ...)
+	regexp.MustCompile(`^github\.com/moorara/algo/[a-z/]+\.init\.`),
 	regexp.MustCompile(`^github\.com/moorara/algo/hash\.`),
 	regexp.MustCompile(`^github\.com/moorara/algo/symboltable\.\(\*quadraticHashTable\[.*\]\)\.All\(\)`),
 	regexp.MustCompile(`^github\.com/moorara/algo/set\.\(\*set\[.*\]\)\.All\(\)`),
